@@ -46,15 +46,47 @@
                                   snest_resource, WfComplete the joined-tree half.)  The premise is the executable
                                   boolean Coverage.c04_covered t (C04_roundtrip_covered_partial), so
                                   the remaining gap of C04 is explicit: parser outputs whose joined tree is not
-                                  well-formed in the sense of Render.v -- Junk, a zero-line comment (D7), a blank
-                                  line inside a pattern that keeps spaces beyond the common indentation
-                                  (C04_example_spaces_on_blank_line), a lone CR in text, the leading spaces of D30.
+                                  well-formed in the sense of Render.v -- Junk, a zero-line comment (D7), a lone
+                                  CR in text or in a comment, the leading spaces of D30.  (A blank line inside a
+                                  pattern with spaces beyond the common indentation was such a case until the
+                                  repair of finding D33: C04_example_spaces_on_blank_line.)
                                   COVERED since Render.wf_value has the block-form rule (wf_pattern_lines_top): a
                                   value (of a message, a term, an attribute or a VARIANT) all of whose
                                   continuation lines are indented deeper than its first line
                                   (C04_example_block_only_value, C04_example_block_only_variants; sources in
                                   block form), and a value whose FIRST line is indented deeper than a later line
                                   (C04_example_first_line_indented: reference fixture multiline_values.ftl, key10)
+   PROVED FOR EVERY ERROR-FREE PARSER OUTPUT (parse bs = Done (t, [])) WITHOUT CR IN ITS TEXTS (Syntax/ParserWf.v):
+     C04_parser_output_content    the CONTENT half of the premise: every entry, joined, satisfies Render.wf_entry
+                                  without the line rules and the comments (ParserWf.wf_entry_content: non-empty
+                                  patterns, text bytes, identifiers, callees, number and string literals, call
+                                  arguments with literal named values and distinct names, select expressions with
+                                  one default and an admissible selector, no term attribute as placeable, a
+                                  message without value has attributes; no Junk).  nocr_resource t is executable.
+     C04_roundtrip_errorfree_partial   so the round trip and the fixed point hold for every Rust str bs whose parse is
+                                  error-free and CR-free as soon as the LINE rules of the joined patterns and the
+                                  comments are well-formed (ParserWf.lines_and_comments_ok, executable: Render's
+                                  wf_pattern_lines_top on every pattern, wf_comment on every comment): the remaining
+                                  gap of C04 for error-free inputs is exactly that
+   PROVED FOR EVERY PARSER OUTPUT OF A SOURCE WITHOUT CR (nocr bs: no byte 13; Syntax/ParserLines.v):
+     C04_parser_output_lines      the LINE half of the premise: every pattern of the tree (values of messages, terms,
+                                  attributes and variants, at every depth), joined, satisfies Render.lines_ok_pattern,
+                                  i.e. wf_pattern_lines_top: first line not blank, last line not blank and without
+                                  trailing space, continuation lines not starting with . [ * and blank lines empty,
+                                  and the indentation rule (common indentation 0 / block-form rules).  By a new
+                                  invariant of the pattern loop (every placeholder described as a piece: at a line
+                                  start or not, its indentation, its body, whether it ends the line; the common
+                                  indent is the minimum of the counted indentations) and its finish (dedent, drop
+                                  of trailing blank elements, trim of the last element).
+     C04_roundtrip_errorfree_nocr_partial   THE ROUND TRIP AND THE FIXED POINT FOR EVERY ERROR-FREE PARSE OF A Rust str
+                                  WITHOUT CR, with ONE executable side condition on the tree: comments_nonempty t
+                                  (every comment has at least one line: exactly not the zero-line comment of
+                                  finding D7).  No premise about the shape, the content or the lines of the
+                                  patterns, or about the comment lines, is left (C04_parser_output_nocr: the texts
+                                  of the tree have no CR when the source has none; ParserWf.parse_comment_lines:
+                                  the comment lines have neither LF nor CR).  (Sources with CRLF
+                                  line ends are covered by C04_roundtrip_covered_partial through the executable
+                                  premise c04_covered only.)
    PROVED FOR THE PARSE OF EVERY LAYOUT OF EVERY WELL-FORMED TREE but the shape of D7, both serializer options:
      C04_roundtrip_wellformed_sources_partial   for every tree tj with Render.wf_resource tj, WfUtf8.wf_utf8_resource tj
                                   and RoundTrip.last_comment_ok tj (finding D7: if the LAST entry is a stand-alone
@@ -155,7 +187,7 @@ From FluentV Require Import Syntax.ParserModel Syntax.SerializerModel Syntax.Ser
 From FluentV Require Import Syntax.Render Syntax.RoundTrip Syntax.SerializerRoundTrip.
 From FluentV Require Import Syntax.EntryLoop Syntax.RoundTripML Syntax.RoundTripSel Syntax.SerializerML Syntax.SerializerSel.
 From FluentV Require Import Syntax.WfUtf8 Syntax.RoundTripNest Syntax.WfComplete Syntax.SerializerNest.
-From FluentV Require Import Syntax.ParserShape Syntax.ParserLex Syntax.ParserUtf8 Syntax.ParserBridge Syntax.Coverage.
+From FluentV Require Import Syntax.ParserShape Syntax.ParserLex Syntax.ParserUtf8 Syntax.ParserBridge Syntax.Coverage Syntax.ParserLines Syntax.ParserWf.
 
 (* ---- "serialising ... yields" : the serializer returns for every tree ---- *)
 Theorem C04_serialize_total :
@@ -400,6 +432,45 @@ Theorem C04_roundtrip_str_inputs_partial :
 Proof.
   intros bs t errs Hb Hp Hw. apply (C04_roundtrip_parser_outputs_partial bs t errs Hp Hw).
   apply join_utf8, (parse_utf8 bs t errs Hb Hp).
+Qed.
+
+(* the CONTENT conditions of the grammar hold for every error-free parser output whose texts have no CR: what is left
+   of the premise wf_resource are the line rules of the patterns and the comments (ParserWf.lines_and_comments_ok) *)
+Theorem C04_parser_output_content :
+  forall bs t, parse bs = Done (t, []) -> nocr_resource t = true ->
+  Forall (fun e => wf_entry_content (join_entry e) = true) t.
+Proof. exact parse_wf_content. Qed.
+
+Theorem C04_roundtrip_errorfree_partial :
+  forall bs t, utf8_valid bs = true -> parse bs = Done (t, []) -> nocr_resource t = true ->
+  forallb lines_and_comments_ok (map join_entry t) = true ->
+  forall with_junk s, serialize_with_options with_junk t = Done s ->
+  exists t2 errs2, parse s = Done (t2, errs2) /\ norm t2 = norm (drop_junk_unless with_junk t) /\ errs2 = [] /\
+                   serialize_with_options with_junk t2 = Done s.
+Proof.
+  intros bs t Hb Hp Hn Hl. apply (C04_roundtrip_str_inputs_partial bs t [] Hb Hp). apply (parse_wf_from_lines bs t Hp Hn Hl).
+Qed.
+
+(* the LINE rules of the grammar hold for every pattern (at every depth, joined) of every parser output of a source
+   without CR: Syntax/ParserLines.v *)
+Theorem C04_parser_output_lines :
+  forall bs t errs, nocr bs = true -> parse bs = Done (t, errs) -> Forall ln_entry t.
+Proof. exact parse_lines. Qed.
+
+(* the texts of a parser output are slices of the source: without CR in the source there is none in the texts *)
+Theorem C04_parser_output_nocr :
+  forall bs t errs, nocr bs = true -> parse bs = Done (t, errs) -> nocr_resource t = true.
+Proof. exact parse_nocr. Qed.
+
+(* so: for every Rust str WITHOUT CR whose parse is error-free, the round trip and the fixed point hold, provided the
+   tree has no comment without a line (the zero-line comment of finding D7) *)
+Theorem C04_roundtrip_errorfree_nocr_partial :
+  forall bs t, utf8_valid bs = true -> nocr bs = true -> parse bs = Done (t, []) -> comments_nonempty t = true ->
+  forall with_junk s, serialize_with_options with_junk t = Done s ->
+  exists t2 errs2, parse s = Done (t2, errs2) /\ norm t2 = norm (drop_junk_unless with_junk t) /\ errs2 = [] /\
+                   serialize_with_options with_junk t2 = Done s.
+Proof.
+  intros bs t Hb Hn Hp Hc. apply (C04_roundtrip_str_inputs_partial bs t [] Hb Hp). apply (parse_wf_errorfree bs t Hp Hn Hc).
 Qed.
 
 (* the same with the executable premise Coverage.c04_covered (for the harness: which parser outputs are covered) *)
@@ -662,6 +733,13 @@ Example C04_example_block_only_value :
             Done (b "a =" ++ LF ++ b "    { m }" ++ LF ++ b "      x" ++ LF ++ b "    .t =" ++ LF ++ b "        one" ++ LF ++ b "         two" ++ LF).
 Proof. eexists. conj_compute. Qed.
 
+(* non-vacuity of C04_roundtrip_errorfree_nocr_partial: a source that satisfies all its premises *)
+Example C04_example_errorfree_premises :
+  let src := b "# c" ++ LF ++ b "a = x { $n ->" ++ LF ++ b "   [one] first" ++ LF ++ b "      second" ++ LF ++ b "  *[other]" ++ LF ++
+             b "      {$n}" ++ LF ++ b "       y" ++ LF ++ b " } z" ++ LF ++ b "  .t =" ++ LF ++ b "      two" ++ LF ++ b "    zero" ++ LF in
+  exists t, parse src = Done (t, []) /\ utf8_valid src = true /\ nocr src = true /\ comments_nonempty t = true.
+Proof. eexists. conj_compute. Qed.
+
 Example C04_example_first_line_indented :
   let src := b "key10 =" ++ LF ++ b "      two" ++ LF ++ b "    zero" ++ LF ++ b "        four" ++ LF ++
              b "key13 =" ++ LF ++ b "    four" ++ LF ++ b "{"".""}" ++ LF in
@@ -681,13 +759,14 @@ Example C04_example_block_only_variants :
                   b "    }" ++ LF).
 Proof. eexists. conj_compute. Qed.
 
-(* an error-free source whose tree is OUTSIDE the premise of C04_roundtrip_parser_outputs_partial: a blank line inside
-   the value with more spaces than the common indentation becomes the text element "  LF"; the joined tree is not
-   well-formed in the sense of Render.v; the round trip holds nevertheless (by computation) *)
+(* a blank line inside a value with more spaces than the common indentation: since the repair of finding D33 the
+   parser returns "LF" for it (the spaces of a blank line are not text), the tree is covered *)
 Example C04_example_spaces_on_blank_line :
   let src := b "a =" ++ LF ++ b "    x" ++ LF ++ b "      " ++ LF ++ b "    y" ++ LF in
-  (exists t, parse src = Done (t, []) /\ wf_resource (map join_entry t) = false) /\ roundtrips true src.
-Proof. split; [eexists; split; vm_compute; reflexivity | do 5 eexists; conj_compute]. Qed.
+  (exists t, parse src = Done (t, []) /\ c04_covered t = true /\
+             map join_entry t = [Message (b "a") (Some (Pattern [TextElement (b "x" ++ LF ++ LF ++ b "y")])) [] None]) /\
+  roundtrips true src.
+Proof. split; [eexists; repeat (split; [vm_compute; reflexivity|]); vm_compute; reflexivity | do 5 eexists; conj_compute]. Qed.
 
 (* a select expression with a default variant *)
 Example C04_example_select :
